@@ -101,6 +101,17 @@ def _edge_list(draw, n, lo, hi, weights):
     return [list(x) for x in e]
 
 
+EDIT_OPS = ["shortcut", "cut", "raise", "add", "remove", "reweight"]
+
+
+def _edit(n, weights):
+    """One in-place edit of the graph between two identical queries (see "call histories" below)."""
+    return st.fixed_dictionaries({
+        "op": st.sampled_from(EDIT_OPS), "u": st.integers(0, n - 1), "v": st.integers(0, n - 1),
+        "w": st.sampled_from(weights), "ws": st.sampled_from([0, 0.5, 1]), "k": st.integers(0, 63),
+    })
+
+
 def _backbone(draw, n, weights):
     """Random arborescence rooted at order[0]: every node becomes reachable from the root."""
     order = list(draw(st.permutations(range(n))))
@@ -193,8 +204,9 @@ def weighted_cases(draw, tier="quick"):
         "lam": draw(st.sampled_from([4, 2, 0, 1, 3])),
         "max_cost": draw(st.one_of(st.none(), st.none(), st.sampled_from([2, 1, 3, 0.5, 4, 6, 0, 10]))),
         "max_iter": draw(st.one_of(st.none(), st.none(), st.none(), st.integers(0, n + 1))),
-        "nb": draw(st.sampled_from(["list", "gen", "tuple"])),
+        "nb": draw(st.sampled_from(["list", "raw", "gen", "tuple"])),
         "edges_api": draw(st.booleans()),
+        "edit": draw(st.one_of(st.none(), _edit(n, W_POS))),
     }
 
 
@@ -235,8 +247,9 @@ def unweighted_cases(draw, tier="quick"):
         "s": s,
         "goal": goal,
         "max_iter": None if goal["as"] == "none" else draw(st.one_of(st.none(), st.none(), st.none(), st.integers(0, n + 1))),
-        "nb": draw(st.sampled_from(["list", "gen", "tuple"])),
+        "nb": draw(st.sampled_from(["list", "raw", "gen", "tuple"])),
         "edges_api": draw(st.booleans()),
+        "edit": draw(st.one_of(st.none(), _edit(n, [1]))),
     }
 
 
@@ -312,13 +325,15 @@ def bf_cases(draw, tier="quick"):
         "s": s,
         "target": draw(st.one_of(node, st.none(), node)),
         "tuples": draw(st.booleans()),
+        "edit": draw(st.one_of(st.none(), _edit(n, W_POS + W_NEG))),
     }
 
 
 @st.composite
 def fw_cases(draw, tier="quick"):
     n, edges, fam, _ = draw(signed_graph(tier))
-    return {"family": fam, "n": n, "edges": edges, "directed": draw(st.sampled_from([True, True, False])), "tuples": draw(st.booleans())}
+    return {"family": fam, "n": n, "edges": edges, "directed": draw(st.sampled_from([True, True, False])), "tuples": draw(st.booleans()),
+            "edit": draw(st.one_of(st.none(), _edit(n, W_POS + W_NEG)))}
 
 
 HEURISTICS = ["auto", "manhattan", "octile", "euclidean", "chebyshev"]
@@ -383,6 +398,9 @@ def grid_cases(draw, tier="quick"):
         "weight": draw(st.sampled_from([None, 1.0, None, 1, None, 1.5, 2.0, 0.5])),
         "max_iter": draw(st.one_of(st.none(), st.none(), st.none(), st.none(), st.integers(0, rows * cols + 1))),
         "rows_as": draw(st.sampled_from(["list", "tuple"])),
+        "edit": draw(st.one_of(st.none(), st.fixed_dictionaries({
+            "op": st.sampled_from(["block-on-path", "set", "block-on-path"]), "r": st.integers(0, 7), "c": st.integers(0, 7),
+            "val": st.sampled_from([1, 0, 2, 3]), "k": st.integers(0, 63)}))),
     }
 
 
@@ -507,6 +525,8 @@ def _neighbors(style, adj):
         return lambda x: (p for p in adj.get(x, ()))
     if style == "tuple":
         return lambda x: tuple(adj.get(x, ()))
+    if style == "raw":  # the caller's own list object, as in the documented `lambda n: graph[n]`
+        return lambda x: adj.get(x, [])
     return lambda x: list(adj.get(x, ()))
 
 
@@ -538,32 +558,145 @@ def _goal_labels(ctx, goal, s, n):
         ctx.label("goal-None")
 
 
+# ----------------------------------------------------------------------------- call histories (round 2)
+# A case may carry one generated edit.  The query is then asked twice through the SAME objects (neighbour
+# function over one mutable adjacency dict / one edge-list object / one grid, same start and goal objects):
+# solve, edit the graph in place, solve again.  Every answer is judged against the oracle for what the caller's
+# object contains at the moment of that call.  A wrong second answer is re-asked through fresh objects holding
+# the same edited graph: right there => the first answer leaked into the second (bucket + ":stale-after-graph-edit");
+# wrong there too => an ordinary failure on the edited graph (plain bucket).
+# C11 does not say that arguments stay untouched, so a call that modifies the caller's list / dict / grid is only
+# labelled and counted ("arguments-mutated"), and the next call is judged against the modified content.
+def _plan_edit(edit, E, tight, s, t0, unit=False):
+    """Generated edit -> primitive operation on the edge list E = [(u, v, w)]:
+    ("append", e) | ("delete", i) | ("replace", i, e).  `tight` = indices of edges on some optimal route."""
+    op, k = edit["op"], edit["k"]
+    if unit:
+        op = {"raise": "cut", "reweight": "remove"}.get(op, op)
+    if op == "shortcut":
+        return ("append", (s, t0 if t0 is not None else edit["v"], 1 if unit else edit["ws"]))
+    if op in ("cut", "raise") and tight:
+        i = tight[k % len(tight)]
+        return ("delete", i) if op == "cut" else ("replace", i, (E[i][0], E[i][1], 5))
+    if op != "add" and E:
+        i = k % len(E)
+        if op in ("cut", "remove"):
+            return ("delete", i)
+        return ("replace", i, (E[i][0], E[i][1], edit["w"] if op == "reweight" else 5))
+    return ("append", (edit["u"], edit["v"], 1 if unit else edit["w"]))
+
+
+def _apply_to_list(lst, prim, make):
+    if prim[0] == "append":
+        lst.append(make(prim[1]))
+    elif prim[0] == "delete":
+        del lst[prim[1]]
+    else:
+        lst[prim[1]] = make(prim[2])
+
+
+def _adj_edges(adj, idx, weighted):
+    """Edge list held by the adjacency dict right now + where each edge sits: [(u,v,w)], [(label, position)]."""
+    E, loc = [], []
+    for key, lst in adj.items():
+        for pos, item in enumerate(lst):
+            if weighted:
+                E.append((idx[key], idx[item[0]], item[1]))
+            else:
+                E.append((idx[key], idx[item], 1))
+            loc.append((key, pos))
+    return E, loc
+
+
+def _apply_to_adj(adj, L, loc, prim, weighted):
+    item = (lambda e: (L[e[1]], e[2])) if weighted else (lambda e: L[e[1]])
+    if prim[0] == "append":
+        adj[L[prim[1][0]]].append(item(prim[1]))
+    elif prim[0] == "delete":
+        key, pos = loc[prim[1]]
+        del adj[key][pos]
+    else:
+        key, pos = loc[prim[1]]
+        adj[key][pos] = item(prim[2])
+
+
+def _copy_adj(adj):
+    return {k: list(v) for k, v in adj.items()}
+
+
+def _note_mutation(ctx, before, after, what):
+    if before != after:
+        ctx.label("arguments-mutated")
+        ctx.count(f"arguments-mutated:{what}")
+
+
+def _second_opinion(v, redo):
+    """v: Violation raised by a call made after an in-place edit; redo(): the same query through fresh objects."""
+    try:
+        redo()
+    except Violation:
+        raise v from None
+    raise Violation(v.bucket + ":stale-after-graph-edit", v.detail) from None
+
+
+def _tight_edges(E, ds, togo, want):
+    """Indices of edges lying on some optimal route (ds: distances from the source, togo: to the target set)."""
+    if want is None:
+        return []
+    return [i for i, (a, b, c) in enumerate(E) if ds[a] is not None and togo[b] is not None and ds[a] + G.fr(c) + togo[b] == want]
+
+
+def _finish(ctx, escapes):
+    esc = [e for e in escapes if e]
+    for e in esc:
+        ctx.count(f"escape:{e}")
+    if "max_iter" in esc:
+        raise Inconclusive("MAX_ITER with max_iter <= reachable nodes")
+
+
 # ----------------------------------------------------------------------------- dijkstra / astar
+def _judge_all_distances(area, res, n, dist):
+    sol = res.solution
+    if not isinstance(sol, dict):
+        raise Violation(f"{area}:all-distances-not-a-dict", repr(sol)[:200])
+    for v in range(n):
+        got = sol.get(v, float("inf"))
+        if dist[v] is None:
+            if got != float("inf"):
+                raise Violation(f"{area}:all-distances-unreachable-node-has-distance", {"node": v, "got": repr(got)})
+        elif _exact(got) != dist[v]:
+            raise Violation(f"{area}:all-distances", {"node": v, "got": repr(got), "shortest": str(dist[v])})
+    if any(k not in range(n) for k in sol):
+        raise Violation(f"{area}:all-distances-unknown-node", repr(sorted(sol, key=repr))[:200])
+
+
 def run_weighted(desc, ctx):
     from solvor.a_star import astar
     from solvor.dijkstra import dijkstra, dijkstra_edges
 
-    n, s = desc["n"], desc["s"]
-    env = Env(n, desc["scheme"], desc["edges"], s)
-    L = env.L
+    n, s, scheme = desc["n"], desc["s"], desc["scheme"]
+    env = Env(n, scheme, desc["edges"], s)
+    L, idx = env.L, env.idx
     adj = {L[i]: [] for i in range(n)}
     for u, v, w in env.edges:
         adj[L[u]].append((L[v], w))
-    nb = _neighbors(desc["nb"], adj)
+    nb = _neighbors(desc["nb"], adj)  # ONE function object for the whole history
     goal_arg, goals = _goal_arg(env, desc["goal"])
+    start = lab(scheme, s)
     dist, _ = G.sssp(n, env.edges, s)
     want = _nearest(dist, goals)
     reach_n = sum(d is not None for d in dist)
     mc, mi = desc["max_cost"], desc["max_iter"]
+    edit = desc.get("edit")
     kw = {}
     if mc is not None:
         kw["max_cost"] = mc
     if mi is not None:
         kw["max_iter"] = mi
 
-    # labels / non-triviality
+    # labels / non-triviality (initial graph)
     pairs = set(env.cheap)
-    ctx.label(desc["family"], f"labels-{desc['scheme']}", f"neighbors-{desc['nb']}")
+    ctx.label(desc["family"], f"labels-{scheme}", f"neighbors-{desc['nb']}")
     _goal_labels(ctx, desc["goal"], s, n)
     ctx.label(
         len(pairs) < len(env.edges) and "parallel-edges",
@@ -588,80 +721,132 @@ def run_weighted(desc, ctx):
     ctx.size("n", n)
     ctx.size("edges", len(env.edges))
 
-    escapes = []
-    res = _call(ctx, dijkstra, lab(desc["scheme"], s), goal_arg, nb, **kw)
-    escapes.append(judge_path("dijkstra", res, env, goals, want, max_cost=mc, max_iter=mi, reach_n=reach_n))
-
-    # astar: h = lambda * exact distance to the nearest goal; inf where the goal set cannot be
-    # reached (admissible, and consistent: a dead end only has dead-end successors)
     lam = LAMBDAS[desc["lam"]]
-    togo = G.dist_to_set(n, env.edges, sorted(goals))
-    hval = {}
-    for i in range(n):
-        if lam == 0:
-            hval[L[i]] = 0.0
-        elif togo[i] is None:
-            hval[L[i]] = float("inf")
-        else:
-            hval[L[i]] = float(lam * togo[i])  # denominators <= 8: exact
     ctx.label(f"lambda-{lam}")
-    res = _call(ctx, astar, lab(desc["scheme"], s), goal_arg, nb, lambda x: hval[x], **kw)
-    escapes.append(judge_path("astar", res, env, goals, want, max_cost=mc, max_iter=mi, reach_n=reach_n))
+    hval = {}
+    hfun = lambda x: hval[x]  # noqa: E731  (ONE heuristic object; its table follows the graph)
+
+    def solve(adj_, nb_, start_, goal_, hval_, hfun_, escapes):
+        """dijkstra, then astar, each judged against the graph adj_ holds at the moment of the call."""
+        for name in ("dijkstra", "astar"):
+            E, _ = _adj_edges(adj_, idx, True)
+            env_ = Env(n, scheme, E, s)
+            d_, _ = G.sssp(n, E, s)
+            want_ = _nearest(d_, goals)
+            reach_ = sum(x is not None for x in d_)
+            snap = _copy_adj(adj_)
+            if name == "dijkstra":
+                res = _call(ctx, dijkstra, start_, goal_, nb_, **kw)
+            else:
+                # h = lambda * exact distance to the nearest goal; inf where the goal set cannot be
+                # reached (admissible, and consistent: a dead end only has dead-end successors)
+                togo = G.dist_to_set(n, E, sorted(goals))
+                hval_.clear()
+                for i in range(n):
+                    if lam == 0:
+                        hval_[L[i]] = 0.0
+                    elif togo[i] is None:
+                        hval_[L[i]] = float("inf")
+                    else:
+                        hval_[L[i]] = float(lam * togo[i])  # denominators <= 8: exact
+                res = _call(ctx, astar, start_, goal_, nb_, hfun_, **kw)
+            _note_mutation(ctx, snap, adj_, name)
+            escapes.append(judge_path(name, res, env_, goals, want_, max_cost=mc, max_iter=mi, reach_n=reach_))
+
+    escapes = []
+    solve(adj, nb, start, goal_arg, hval, hfun, escapes)
+    if edit is not None:
+        E, loc = _adj_edges(adj, idx, True)
+        ds, _ = G.sssp(n, E, s)
+        w0 = _nearest(ds, goals)
+        prim = _plan_edit(edit, E, _tight_edges(E, ds, G.dist_to_set(n, E, sorted(goals)), w0), s, min(goals) if goals else None)
+        _apply_to_adj(adj, L, loc, prim, True)
+        E2, _ = _adj_edges(adj, idx, True)
+        w1 = _nearest(G.sssp(n, E2, s)[0], goals)
+        ctx.label("history", f"edit-{edit['op']}", w1 != w0 and "edit-changes-answer")
+        frozen = _copy_adj(adj)
+
+        def redo():
+            a2 = _copy_adj(frozen)
+            hv2 = {}
+            solve(a2, _neighbors(desc["nb"], a2), lab(scheme, s), _goal_arg(env, desc["goal"])[0], hv2, lambda x: hv2[x], [])
+
+        try:
+            solve(adj, nb, start, goal_arg, hval, hfun, escapes)
+        except Violation as v:
+            _second_opinion(v, redo)
 
     if desc["edges_api"] and mc is None and mi is None:
-        elist = [(u, v, w) for u, v, w in env.edges]
+        elist = [(u, v, w) for u, v, w in env.edges]  # ONE list object for both calls
         ts = desc["goal"]["ts"]
-        if desc["goal"]["as"] == "value" and ts[0] < n:
-            ctx.label("dijkstra_edges-target")
-            res = _call(ctx, dijkstra_edges, n, elist, s, target=ts[0], backend="python")
-            ienv = Env(n, 0, desc["edges"], s)
-            judge_path("dijkstra_edges", res, ienv, {ts[0]}, dist[ts[0]])
-        else:
-            ctx.label("dijkstra_edges-all")
-            res = _call(ctx, dijkstra_edges, n, elist, s, backend="python")
-            sol = res.solution
-            if not isinstance(sol, dict):
-                raise Violation("dijkstra_edges:all-distances-not-a-dict", repr(sol)[:200])
-            for v in range(n):
-                got = sol.get(v, float("inf"))
-                if dist[v] is None:
-                    if got != float("inf"):
-                        raise Violation("dijkstra_edges:all-distances-unreachable-node-has-distance", {"node": v, "got": repr(got)})
-                elif _exact(got) != dist[v]:
-                    raise Violation("dijkstra_edges:all-distances", {"node": v, "got": repr(got), "shortest": str(dist[v])})
-            if any(k not in range(n) for k in sol):
-                raise Violation("dijkstra_edges:all-distances-unknown-node", repr(sorted(sol, key=repr))[:200])
+        single = desc["goal"]["as"] == "value" and ts[0] < n
+        ctx.label("dijkstra_edges-target" if single else "dijkstra_edges-all")
 
-    esc = [e for e in escapes if e]
-    for e in esc:
-        ctx.count(f"escape:{e}")
-    if "max_iter" in esc:
-        raise Inconclusive("MAX_ITER with max_iter <= reachable nodes")
+        def ask(lst):
+            cur = [tuple(e) for e in lst]
+            d_, _ = G.sssp(n, cur, s)
+            snap = list(lst)
+            if single:
+                res = _call(ctx, dijkstra_edges, n, lst, s, target=ts[0], backend="python")
+            else:
+                res = _call(ctx, dijkstra_edges, n, lst, s, backend="python")
+            _note_mutation(ctx, snap, lst, "dijkstra_edges")
+            if single:
+                judge_path("dijkstra_edges", res, Env(n, 0, cur, s), {ts[0]}, d_[ts[0]])
+            else:
+                _judge_all_distances("dijkstra_edges", res, n, d_)
+
+        ask(elist)
+        if edit is not None:
+            cur = [tuple(e) for e in elist]
+            ds, _ = G.sssp(n, cur, s)
+            t0 = ts[0] if single else None
+            togo = G.dist_to_set(n, cur, [t0]) if single else [None] * n
+            prim = _plan_edit(edit, cur, _tight_edges(cur, ds, togo, ds[t0] if single else None), s, t0)
+            _apply_to_list(elist, prim, tuple)
+            frozen = list(elist)
+            try:
+                ask(elist)
+            except Violation as v:
+                _second_opinion(v, lambda: ask(list(frozen)))
+
+    _finish(ctx, escapes)
 
 
 # ----------------------------------------------------------------------------- bfs / dfs
+def _judge_explore_all(name, res, want_set, shown):
+    try:
+        got = set(res.solution)
+    except TypeError:
+        raise Violation(f"{name}:explore-all-not-iterable", repr(res.solution)[:200])
+    if got != want_set:
+        raise Violation(f"{name}:explore-all-reachable-set", {"got": repr(sorted(got, key=repr))[:300], "want": shown})
+
+
 def run_unweighted(desc, ctx):
     from solvor.bfs import bfs, bfs_edges, dfs, dfs_edges
 
-    n, s = desc["n"], desc["s"]
+    n, s, scheme = desc["n"], desc["s"], desc["scheme"]
     unit = [(u, v, 1) for u, v in desc["pairs"]]
-    env = Env(n, desc["scheme"], unit, s)
-    L = env.L
+    env = Env(n, scheme, unit, s)
+    L, idx = env.L, env.idx
     adj = {L[i]: [] for i in range(n)}
     for u, v in desc["pairs"]:
         adj[L[u]].append(L[v])
-    nb = _neighbors(desc["nb"], adj)
+    nb = _neighbors(desc["nb"], adj)  # ONE function object for the whole history
     goal_arg, goals = _goal_arg(env, desc["goal"])
+    explore = desc["goal"]["as"] == "none"
+    start = L[s]
     hops = G.bfs_hops(n, desc["pairs"], s)
     R = {v for v in range(n) if hops[v] is not None}
     want = _nearest(hops, goals)
-    wantf = None if want is None else Fraction(want)
     mi = desc["max_iter"]
+    edit = desc.get("edit")
     kw = {} if mi is None else {"max_iter": mi}
 
-    ctx.label(desc["family"], f"labels-{desc['scheme']}", f"neighbors-{desc['nb']}")
+    ctx.label(desc["family"], f"labels-{scheme}", f"neighbors-{desc['nb']}")
     _goal_labels(ctx, desc["goal"], s, n)
-    ctx.label(want is None and desc["goal"]["as"] != "none" and "unreachable", mi is not None and "max_iter", mi is not None and mi <= len(R) and "max_iter-small",
+    ctx.label(want is None and not explore and "unreachable", mi is not None and "max_iter", mi is not None and mi <= len(R) and "max_iter-small",
               len(set(map(tuple, desc["pairs"]))) < len(desc["pairs"]) and "parallel-edges", any(u == v for u, v in desc["pairs"]) and "self-loop")
     two = False
     if want is not None:
@@ -674,52 +859,97 @@ def run_unweighted(desc, ctx):
     ctx.size("n", n)
     ctx.size("edges", len(unit))
 
-    escapes = []
-    if desc["goal"]["as"] == "none":
+    def solve(adj_, nb_, start_, goal_, escapes):
         for name, fn in (("bfs", bfs), ("dfs", dfs)):
-            res = _call(ctx, fn, L[s], None, nb)
-            try:
-                got = set(res.solution)
-            except TypeError:
-                raise Violation(f"{name}:explore-all-not-iterable", repr(res.solution)[:200])
-            if got != {L[v] for v in R}:
-                raise Violation(f"{name}:explore-all-reachable-set", {"got": repr(sorted(got, key=repr))[:300], "want": sorted(R)})
-    else:
-        res = _call(ctx, bfs, L[s], goal_arg, nb, **kw)
-        escapes.append(judge_path("bfs", res, env, goals, wantf, max_iter=mi, reach_n=len(R)))
-        res = _call(ctx, dfs, L[s], goal_arg, nb, **kw)
-        escapes.append(judge_path("dfs", res, env, goals, wantf, optimal_status="FEASIBLE", any_path=True, max_iter=mi, reach_n=len(R)))
-        if want is not None and res.status.name == "FEASIBLE":
-            ctx.label(_exact(res.objective) > wantf and "dfs-path-longer-than-shortest")
+            E, _ = _adj_edges(adj_, idx, False)
+            h_ = G.bfs_hops(n, E, s)
+            R_ = {v for v in range(n) if h_[v] is not None}
+            w_ = _nearest(h_, goals)
+            wf = None if w_ is None else Fraction(w_)
+            snap = _copy_adj(adj_)
+            res = _call(ctx, fn, start_, None, nb_) if explore else _call(ctx, fn, start_, goal_, nb_, **kw)
+            _note_mutation(ctx, snap, adj_, name)
+            if explore:
+                _judge_explore_all(name, res, {L[v] for v in R_}, sorted(R_))
+            elif name == "bfs":
+                escapes.append(judge_path("bfs", res, Env(n, scheme, E, s), goals, wf, max_iter=mi, reach_n=len(R_)))
+            else:
+                escapes.append(judge_path("dfs", res, Env(n, scheme, E, s), goals, wf, optimal_status="FEASIBLE", any_path=True, max_iter=mi, reach_n=len(R_)))
+                if w_ is not None and res.status.name == "FEASIBLE":
+                    ctx.label(_exact(res.objective) > wf and "dfs-path-longer-than-shortest")
+
+    escapes = []
+    solve(adj, nb, start, goal_arg, escapes)
+    if edit is not None:
+        E, loc = _adj_edges(adj, idx, False)
+        hs = G.bfs_hops(n, E, s)
+        w0 = _nearest(hs, goals)
+        ds = [None if x is None else Fraction(x) for x in hs]
+        tight = _tight_edges(E, ds, G.dist_to_set(n, E, sorted(goals)), None if w0 is None else Fraction(w0))
+        prim = _plan_edit(edit, E, tight, s, min(goals) if goals else None, unit=True)
+        _apply_to_adj(adj, L, loc, prim, False)
+        E2, _ = _adj_edges(adj, idx, False)
+        h2 = G.bfs_hops(n, E2, s)
+        changed = (h2 != hs) if explore else (_nearest(h2, goals) != w0)
+        ctx.label("history", f"edit-{edit['op']}", changed and "edit-changes-answer")
+        frozen = _copy_adj(adj)
+
+        def redo():
+            a2 = _copy_adj(frozen)
+            solve(a2, _neighbors(desc["nb"], a2), lab(scheme, s), _goal_arg(env, desc["goal"])[0], [])
+
+        try:
+            solve(adj, nb, start, goal_arg, escapes)
+        except Violation as v:
+            _second_opinion(v, redo)
 
     if desc["edges_api"] and mi is None:
-        plist = [(u, v) for u, v in desc["pairs"]]
+        plist = [(u, v) for u, v in desc["pairs"]]  # ONE list object for all calls
         ts = desc["goal"]["ts"]
-        ienv = Env(n, 0, unit, s)
-        if desc["goal"]["as"] == "value" and ts[0] < n:
-            ctx.label("edges-api-target")
-            t = ts[0]
-            ht = None if hops[t] is None else Fraction(hops[t])
-            res = _call(ctx, bfs_edges, n, plist, s, target=t, backend="python")
-            judge_path("bfs_edges", res, ienv, {t}, ht)
-            res = _call(ctx, dfs_edges, n, plist, s, target=t, backend="python")
-            judge_path("dfs_edges", res, ienv, {t}, ht, optimal_status="FEASIBLE", any_path=True)
-        else:
-            ctx.label("edges-api-all")
-            for name, fn in (("bfs_edges", bfs_edges), ("dfs_edges", dfs_edges)):
-                res = _call(ctx, fn, n, plist, s, backend="python")
-                try:
-                    got = sorted(res.solution)
-                except TypeError:
-                    raise Violation(f"{name}:explore-all-not-sortable", repr(res.solution)[:200])
-                if got != sorted(R):
-                    raise Violation(f"{name}:explore-all-reachable-set", {"got": got, "want": sorted(R)})
+        single = desc["goal"]["as"] == "value" and ts[0] < n
+        ctx.label("edges-api-target" if single else "edges-api-all")
 
-    esc = [e for e in escapes if e]
-    for e in esc:
-        ctx.count(f"escape:{e}")
-    if "max_iter" in esc:
-        raise Inconclusive("MAX_ITER with max_iter <= reachable nodes")
+        def ask(lst):
+            for name, fn in (("bfs_edges", bfs_edges), ("dfs_edges", dfs_edges)):
+                cur = [(e[0], e[1], 1) for e in lst]
+                h_ = G.bfs_hops(n, cur, s)
+                snap = list(lst)
+                if single:
+                    t = ts[0]
+                    res = _call(ctx, fn, n, lst, s, target=t, backend="python")
+                    _note_mutation(ctx, snap, lst, name)
+                    ht = None if h_[t] is None else Fraction(h_[t])
+                    if name == "bfs_edges":
+                        judge_path(name, res, Env(n, 0, cur, s), {t}, ht)
+                    else:
+                        judge_path(name, res, Env(n, 0, cur, s), {t}, ht, optimal_status="FEASIBLE", any_path=True)
+                else:
+                    res = _call(ctx, fn, n, lst, s, backend="python")
+                    _note_mutation(ctx, snap, lst, name)
+                    R_ = sorted(v for v in range(n) if h_[v] is not None)
+                    try:
+                        got = sorted(res.solution)
+                    except TypeError:
+                        raise Violation(f"{name}:explore-all-not-sortable", repr(res.solution)[:200])
+                    if got != R_:
+                        raise Violation(f"{name}:explore-all-reachable-set", {"got": got, "want": R_})
+
+        ask(plist)
+        if edit is not None:
+            cur = [(e[0], e[1], 1) for e in plist]
+            hs = G.bfs_hops(n, cur, s)
+            ds = [None if x is None else Fraction(x) for x in hs]
+            t0 = ts[0] if single else None
+            togo = G.dist_to_set(n, cur, [t0]) if single else [None] * n
+            prim = _plan_edit(edit, cur, _tight_edges(cur, ds, togo, ds[t0] if single else None), s, t0, unit=True)
+            _apply_to_list(plist, prim, lambda e: (e[0], e[1]))
+            frozen = list(plist)
+            try:
+                ask(plist)
+            except Violation as v:
+                _second_opinion(v, lambda: ask(list(frozen)))
+
+    _finish(ctx, escapes)
 
 
 # ----------------------------------------------------------------------------- bellman_ford
@@ -733,17 +963,40 @@ def _neg_on_optimal(n, edges, dist_s, dist_all_to_t, t):
     return False
 
 
+def _judge_bf(res, n, edges, s, target):
+    dist, neg = G.sssp(n, edges, s)
+    if neg != G.neg_cycle_reachable(n, edges, s):
+        raise AssertionError("oracle self-inconsistency: negative-cycle reachability")  # harness error
+    stn = res.status.name
+    if neg:
+        if stn != "UNBOUNDED":
+            raise Violation(f"bellman_ford:negative-cycle-reachable-but-{stn}", {"objective": repr(res.objective)})
+        return
+    if stn == "UNBOUNDED":
+        raise Violation("bellman_ford:UNBOUNDED-without-reachable-negative-cycle", {"negative-cycle-elsewhere": G.neg_cycle_anywhere(n, edges)})
+    if target is not None:
+        judge_path("bellman_ford", res, Env(n, 0, edges, s), {target}, dist[target])
+        return
+    if stn != "OPTIMAL":
+        raise Violation(f"bellman_ford:all-distances-status-{stn}", None)
+    _judge_all_distances("bellman_ford", res, n, dist)
+
+
+def _copy_edge_list(lst):
+    return [tuple(e) if isinstance(e, tuple) else list(e) for e in lst]
+
+
 def run_bf(desc, ctx):
     from solvor.bellman_ford import bellman_ford
 
     n, s, target = desc["n"], desc["s"], desc["target"]
     edges = [(u, v, w) for u, v, w in desc["edges"]]
-    arg = [tuple(e) for e in edges] if desc["tuples"] else [list(e) for e in edges]
+    make = tuple if desc["tuples"] else list
+    arg = [make(e) for e in edges]  # ONE list object for both calls
+    edit = desc.get("edit")
     env = Env(n, 0, edges, s)
     dist, neg = G.sssp(n, edges, s)
     neg_any = G.neg_cycle_anywhere(n, edges)
-    if neg != G.neg_cycle_reachable(n, edges, s):
-        raise AssertionError("oracle self-inconsistency: negative-cycle reachability")  # harness error
 
     has_neg_edge = any(w < 0 for *_, w in edges)
     ctx.label(desc["family"], has_neg_edge and "negative-edge", neg and "negcycle-reachable", neg_any and not neg and "negcycle-unreachable",
@@ -774,31 +1027,31 @@ def run_bf(desc, ctx):
     ctx.size("edges", len(edges))
 
     kw = {} if target is None else {"target": target}
-    res = _call(ctx, bellman_ford, s, arg, n, backend="python", **kw)
-    stn = res.status.name
-    if neg:
-        if stn != "UNBOUNDED":
-            raise Violation(f"bellman_ford:negative-cycle-reachable-but-{stn}", {"objective": repr(res.objective)})
-        return
-    if stn == "UNBOUNDED":
-        raise Violation("bellman_ford:UNBOUNDED-without-reachable-negative-cycle", {"negative-cycle-elsewhere": neg_any})
-    if target is not None:
-        judge_path("bellman_ford", res, env, {target}, dist[target])
-        return
-    if stn != "OPTIMAL":
-        raise Violation(f"bellman_ford:all-distances-status-{stn}", None)
-    sol = res.solution
-    if not isinstance(sol, dict):
-        raise Violation("bellman_ford:all-distances-not-a-dict", repr(sol)[:200])
-    for v in range(n):
-        got = sol.get(v, float("inf"))
-        if dist[v] is None:
-            if got != float("inf"):
-                raise Violation("bellman_ford:all-distances-unreachable-node-has-distance", {"node": v, "got": repr(got)})
-        elif _exact(got) != dist[v]:
-            raise Violation("bellman_ford:all-distances", {"node": v, "got": repr(got), "shortest": str(dist[v])})
-    if any(k not in range(n) for k in sol):
-        raise Violation("bellman_ford:all-distances-unknown-node", repr(sorted(sol, key=repr))[:200])
+
+    def ask(lst):
+        cur = [tuple(e) for e in lst]  # what the caller's list holds at the moment of the call
+        snap = _copy_edge_list(lst)
+        res = _call(ctx, bellman_ford, s, lst, n, backend="python", **kw)
+        _note_mutation(ctx, snap, lst, "bellman_ford")
+        _judge_bf(res, n, cur, s, target)
+        return res
+
+    ask(arg)
+    if edit is not None:
+        cur = [tuple(e) for e in arg]
+        ds, ng = G.sssp(n, cur, s)
+        tight = [] if ng else [i for i, (a, b, c) in enumerate(cur) if a != b and ds[a] is not None and ds[b] is not None and ds[a] + G.fr(c) == ds[b]]
+        prim = _plan_edit(edit, cur, tight, s, target)
+        _apply_to_list(arg, prim, make)
+        after = [tuple(e) for e in arg]
+        d2, ng2 = G.sssp(n, after, s)
+        ctx.label("history", f"edit-{edit['op']}", ((ng, ds) != (ng2, d2) if target is None or ng or ng2 else ds[target] != d2[target]) and "edit-changes-answer",
+                  ng != ng2 and "edit-flips-negative-cycle")
+        frozen = _copy_edge_list(arg)
+        try:
+            ask(arg)
+        except Violation as v:
+            _second_opinion(v, lambda: ask(_copy_edge_list(frozen)))
 
 
 def _dist_to_target_within(n, edges, s, t):
@@ -827,37 +1080,8 @@ def _rounds_needed(n, edges, s):
 
 
 # ----------------------------------------------------------------------------- floyd_warshall
-def run_fw(desc, ctx):
-    from solvor.floyd_warshall import floyd_warshall
-
-    n, directed = desc["n"], desc["directed"]
-    edges = [(u, v, w) for u, v, w in desc["edges"]]
-    arg = [tuple(e) for e in edges] if desc["tuples"] else [list(e) for e in edges]
+def _judge_fw(res, n, edges, directed):
     D, neg = G.apsp(n, edges, directed)
-    eff = edges if directed else edges + [(v, u, w) for u, v, w in edges]
-
-    ctx.label(desc["family"], "directed" if directed else "undirected", any(w < 0 for *_, w in edges) and "negative-edge",
-              neg and "negcycle-present", len(G.cheapest(edges)) < len(edges) and "parallel-edges", any(u == v for u, v, _ in edges) and "self-loop")
-    nontriv = neg and n >= 2
-    if not neg:
-        budget = 12
-        for i in range(n):
-            for j in range(n):
-                if i != j and D[i][j] is not None and budget > 0 and not nontriv:
-                    budget -= 1
-                    if len(G.simple_path_costs(n, eff, i, j, want=2, cap=300)) >= 2:
-                        nontriv = True
-                        ctx.label("two-path-lengths")
-        ctx.label(any(D[i][j] is None for i in range(n) for j in range(n)) and "some-pair-unreachable")
-        direct = G.cheapest(eff)
-        inter = any(D[i][j] is not None and i != j and ((i, j) not in direct or direct[(i, j)] > D[i][j]) for i in range(n) for j in range(n))
-        ctx.label(inter and "needs-intermediate-node")
-    ctx.nontrivial(nontriv)
-    ctx.size("n", n)
-    ctx.size("edges", len(edges))
-
-    kw = {} if directed and desc["tuples"] else {"directed": directed}
-    res = _call(ctx, floyd_warshall, n, arg, backend="python", **kw)
     stn = res.status.name
     if neg:
         if stn != "UNBOUNDED":
@@ -884,6 +1108,62 @@ def run_fw(desc, ctx):
                 raise Violation("floyd_warshall:distance", {"pair": [i, j], "got": repr(got), "shortest": str(D[i][j])})
 
 
+def run_fw(desc, ctx):
+    from solvor.floyd_warshall import floyd_warshall
+
+    n, directed = desc["n"], desc["directed"]
+    edges = [(u, v, w) for u, v, w in desc["edges"]]
+    make = tuple if desc["tuples"] else list
+    arg = [make(e) for e in edges]  # ONE list object for both calls
+    edit = desc.get("edit")
+    D, neg = G.apsp(n, edges, directed)
+    eff = edges if directed else edges + [(v, u, w) for u, v, w in edges]
+
+    ctx.label(desc["family"], "directed" if directed else "undirected", any(w < 0 for *_, w in edges) and "negative-edge",
+              neg and "negcycle-present", len(G.cheapest(edges)) < len(edges) and "parallel-edges", any(u == v for u, v, _ in edges) and "self-loop")
+    nontriv = neg and n >= 2
+    if not neg:
+        budget = 12
+        for i in range(n):
+            for j in range(n):
+                if i != j and D[i][j] is not None and budget > 0 and not nontriv:
+                    budget -= 1
+                    if len(G.simple_path_costs(n, eff, i, j, want=2, cap=300)) >= 2:
+                        nontriv = True
+                        ctx.label("two-path-lengths")
+        ctx.label(any(D[i][j] is None for i in range(n) for j in range(n)) and "some-pair-unreachable")
+        direct = G.cheapest(eff)
+        inter = any(D[i][j] is not None and i != j and ((i, j) not in direct or direct[(i, j)] > D[i][j]) for i in range(n) for j in range(n))
+        ctx.label(inter and "needs-intermediate-node")
+    ctx.nontrivial(nontriv)
+    ctx.size("n", n)
+    ctx.size("edges", len(edges))
+
+    kw = {} if directed and desc["tuples"] else {"directed": directed}
+
+    def ask(lst):
+        cur = [tuple(e) for e in lst]
+        snap = _copy_edge_list(lst)
+        res = _call(ctx, floyd_warshall, n, lst, backend="python", **kw)
+        _note_mutation(ctx, snap, lst, "floyd_warshall")
+        _judge_fw(res, n, cur, directed)
+
+    ask(arg)
+    if edit is not None:
+        cur = [tuple(e) for e in arg]
+        D1, ng = G.apsp(n, cur, directed)
+        tight = [] if ng else [i for i, (a, b, c) in enumerate(cur) if a != b and D1[a][b] == G.fr(c)]
+        prim = _plan_edit(edit, cur, tight, edit["u"], edit["v"])
+        _apply_to_list(arg, prim, make)
+        D2, ng2 = G.apsp(n, [tuple(e) for e in arg], directed)
+        ctx.label("history", f"edit-{edit['op']}", (D1, ng) != (D2, ng2) and "edit-changes-answer", ng != ng2 and "edit-flips-negative-cycle")
+        frozen = _copy_edge_list(arg)
+        try:
+            ask(arg)
+        except Violation as v:
+            _second_opinion(v, lambda: ask(_copy_edge_list(frozen)))
+
+
 # ----------------------------------------------------------------------------- astar_grid
 def _admissible(directions, h_name):
     """(directions, heuristic) pairs whose heuristic never overestimates when every enterable cell
@@ -894,22 +1174,19 @@ def _admissible(directions, h_name):
     return not (directions == 8 and h_name == "manhattan")
 
 
-def run_grid(desc, ctx):
+def _grid_round(desc, ctx, garg, blocked_arg, costs, first):
+    """One astar_grid call on the caller's objects, judged against what they hold at the moment of the call.
+    Returns (escape or None, path cells or None)."""
     from solvor.a_star import astar_grid
 
-    grid = desc["grid"]
+    grid = [list(r) for r in garg]
     rows, cols = len(grid), len(grid[0])
     start, goal = tuple(desc["start"]), tuple(desc["goal"])
     directions, h_name = desc["directions"], desc["heuristic"]
     b = desc["blocked"]
-    blocked_set = {b} if isinstance(b, int) else set(b)
-    blocked_arg = b if isinstance(b, int) else set(b)
-    costs = None if desc["costs"] is None else {k: v for k, v in desc["costs"]}
-    cmap = costs or {}
+    blocked_set = {blocked_arg} if isinstance(blocked_arg, int) else set(blocked_arg)
+    cmap = dict(costs) if costs else {}
     weight, mi = desc["weight"], desc["max_iter"]
-    garg = [tuple(r) for r in grid] if desc["rows_as"] == "tuple" else [list(r) for r in grid]
-    if desc["rows_as"] == "tuple":
-        garg = tuple(garg)
 
     free_vals = {grid[r][c] for r in range(rows) for c in range(cols) if grid[r][c] not in blocked_set}
     cheap_cell = any(cmap.get(v, 1) < 1 for v in free_vals)
@@ -922,18 +1199,19 @@ def run_grid(desc, ctx):
     want = dist.get(goal)
     reach_n = len(dist)
 
-    ctx.label(desc["family"], f"dirs-{directions}", f"h-{h_name}", admissible and "admissible", not admissible and "inadmissible-validity-only",
-              not w1 and "weight-not-1", start_blocked and "start-blocked", goal_blocked and "goal-blocked", start == goal and "start-is-goal",
-              want is None and "unreachable", costs and "costs-map", cheap_cell and "cost-below-1", mi is not None and "max_iter",
-              mi is not None and mi <= reach_n and "max_iter-small", isinstance(b, int) and "blocked-int", not isinstance(b, int) and "blocked-set")
-    two = want is not None and not start_blocked and G.two_route_costs(lambda u: mv[u], start, goal, cap=600)
-    ctx.label(two and "two-route-costs")
-    if want is not None and start != goal:
-        dr, dc = abs(start[0] - goal[0]), abs(start[1] - goal[1])
-        free = (Fraction(dr + dc), Fraction(0)) if directions == 4 else (Fraction(max(dr, dc) - min(dr, dc)), Fraction(min(dr, dc)))
-        ctx.label(G.q2_less(free, want) and "detour-forced")
-    ctx.nontrivial(two)
-    ctx.size("cells", rows * cols)
+    if first:
+        ctx.label(desc["family"], f"dirs-{directions}", f"h-{h_name}", admissible and "admissible", not admissible and "inadmissible-validity-only",
+                  not w1 and "weight-not-1", start_blocked and "start-blocked", goal_blocked and "goal-blocked", start == goal and "start-is-goal",
+                  want is None and "unreachable", costs and "costs-map", cheap_cell and "cost-below-1", mi is not None and "max_iter",
+                  mi is not None and mi <= reach_n and "max_iter-small", isinstance(b, int) and "blocked-int", not isinstance(b, int) and "blocked-set")
+        two = want is not None and not start_blocked and G.two_route_costs(lambda u: mv[u], start, goal, cap=600)
+        ctx.label(two and "two-route-costs")
+        if want is not None and start != goal:
+            dr, dc = abs(start[0] - goal[0]), abs(start[1] - goal[1])
+            free = (Fraction(dr + dc), Fraction(0)) if directions == 4 else (Fraction(max(dr, dc) - min(dr, dc)), Fraction(min(dr, dc)))
+            ctx.label(G.q2_less(free, want) and "detour-forced")
+        ctx.nontrivial(two)
+        ctx.size("cells", rows * cols)
 
     kw = {"directions": directions, "heuristic": h_name}
     if directions == 4 and h_name == "auto" and rows % 2:
@@ -946,18 +1224,19 @@ def run_grid(desc, ctx):
         kw["weight"] = weight
     if mi is not None:
         kw["max_iter"] = mi
+    snap = (grid, set(blocked_set), dict(cmap))
     res = _call(ctx, astar_grid, garg, start, goal, **kw)
+    _note_mutation(ctx, snap, ([list(r) for r in garg], {blocked_arg} if isinstance(blocked_arg, int) else set(blocked_arg), dict(costs) if costs else {}), "astar_grid")
     stn = res.status.name
 
     if stn == "MAX_ITER":
         if mi is not None and mi <= reach_n:
-            ctx.count("escape:max_iter")
-            raise Inconclusive("MAX_ITER with max_iter <= reachable cells")
+            return "max_iter", None
         raise Violation("astar_grid:MAX_ITER-without-reachable-limit", {"max_iter": mi, "reachable": reach_n})
     if start_blocked:
         # leaving a blocked start cell is not specified: only the genuineness of a returned path is checked
         if stn == "INFEASIBLE":
-            return
+            return None, None
         want_exact = False
     else:
         if goal_blocked and goal != start:
@@ -965,7 +1244,7 @@ def run_grid(desc, ctx):
         if want is None:
             if stn != "INFEASIBLE":
                 raise Violation(f"astar_grid:unreachable-but-{stn}", {"solution": repr(res.solution)[:200]})
-            return
+            return None, None
         if stn == "INFEASIBLE":
             raise Violation("astar_grid:reachable-but-INFEASIBLE", {"distance": G.q2_float(want)})
         want_exact = w1 and admissible
@@ -1003,6 +1282,50 @@ def run_grid(desc, ctx):
         raise Violation("astar_grid:distance", {"objective": obj, "shortest": G.q2_float(want), "path": cells})
     if not want_exact and want is not None:
         ctx.label(obj > G.q2_float(want) + 1e-9 and "suboptimal-allowed")
+    return None, cells
+
+
+def run_grid(desc, ctx):
+    grid = desc["grid"]
+    b = desc["blocked"]
+    blocked_arg = b if isinstance(b, int) else set(b)
+    costs = None if desc["costs"] is None else {k: v for k, v in desc["costs"]}
+    garg = [tuple(r) for r in grid] if desc["rows_as"] == "tuple" else [list(r) for r in grid]
+    if desc["rows_as"] == "tuple":
+        garg = tuple(garg)
+    edit = desc.get("edit")
+
+    esc, cells = _grid_round(desc, ctx, garg, blocked_arg, costs, True)
+    escapes = [esc]
+    if edit is not None and desc["rows_as"] == "list":
+        # same grid / blocked / costs objects, one cell rewritten in place
+        rows, cols = len(garg), len(garg[0])
+        bset = {blocked_arg} if isinstance(blocked_arg, int) else set(blocked_arg)
+        if edit["op"] == "block-on-path" and cells and len(cells) > 2:
+            r, c = cells[1 + edit["k"] % (len(cells) - 2)]
+            new = min(bset) if bset else 1
+        else:
+            r, c = edit["r"] % rows, edit["c"] % cols
+            new = edit["val"]
+        if garg[r][c] == new:
+            new = 0 if new else 1
+        before = G.grid_dist([list(x) for x in garg], bset, costs or {}, desc["directions"], tuple(desc["start"])).get(tuple(desc["goal"]))
+        garg[r][c] = new
+        after = G.grid_dist([list(x) for x in garg], bset, costs or {}, desc["directions"], tuple(desc["start"])).get(tuple(desc["goal"]))
+        ctx.label("history", f"edit-{edit['op']}", before != after and "edit-changes-answer")
+        frozen = [list(x) for x in garg]
+
+        def redo():
+            _grid_round(desc, ctx, [list(x) for x in frozen], b if isinstance(b, int) else set(b), None if costs is None else dict(costs), False)
+
+        try:
+            esc, _ = _grid_round(desc, ctx, garg, blocked_arg, costs, False)
+            escapes.append(esc)
+        except Violation as v:
+            _second_opinion(v, redo)
+    if "max_iter" in escapes:
+        ctx.count("escape:max_iter")
+        raise Inconclusive("MAX_ITER with max_iter <= reachable cells")
 
 
 SUBS = [
